@@ -2,6 +2,7 @@ package main
 
 import (
 	"fmt"
+	"os"
 	"go/constant"
 	"go/token"
 	"go/types"
@@ -137,6 +138,7 @@ type Stats struct {
 	IntQ         int
 	Fallbacks    int
 	CacheHits    int
+	LooseKept    int
 }
 
 type extFn func(in *Interp, fr *frame, fn *ssa.Function, args []Value) Value
@@ -421,6 +423,9 @@ func (in *Interp) runBlocks(fr *frame) {
 		for _, ins := range b.Instrs {
 			in.stats.Instrs++
 			if in.path != nil {
+				if traceFns && in.path.Steps%5000 == 0 {
+					fmt.Fprintf(os.Stderr, "step %d in %s block %d\n", in.path.Steps, fr.fn, b.Index)
+				}
 				in.path.Steps++
 				if in.path.Steps > in.cfg.MaxSteps {
 					panic(pathEnd{Kind: "steplimit", Msg: fmt.Sprintf("more than %d instructions; in %s", in.cfg.MaxSteps, fr.fn)})
@@ -832,6 +837,8 @@ func (in *Interp) typeAssert(fr *frame, ins *ssa.TypeAssert) Value {
 	}
 	return res
 }
+
+var traceFns = os.Getenv("SYMGO_TRACE") != ""
 
 var opaqueTolerant = map[string]bool{"fmt.Sprintf": true, "fmt.Errorf": true, "fmt.Sprint": true, "strings.Join": true}
 
